@@ -106,3 +106,35 @@ def gm_recovery(ctx):
     ctx.obligation('oracle:recovery:const-first-small-spread', not bad, 'correspondence', '; '.join(bad))
     if bad:
         ctx.violation('search:recovery:const-first-small-spread', 'Gaussian-copula table [const, x, 1e6+0.5z, exp(z)]: ' + '; '.join(bad), {'problems': bad, 'repro': rep})
+
+
+def unfitted_edge_inputs(ctx):
+    """C19: every query of every UNFITTED univariate model must raise NotFittedError also for unusual but valid inputs
+    (boundary-only probabilities, empty arrays, a single value) — added after seed C19_b (check_fit moved behind an early return)."""
+    from copulas import univariate as U
+    from copulas.errors import NotFittedError
+    inputs = {'boundary': np.array([0.0, 1.0]), 'eps': np.array([1e-9, 1 - 1e-9]), 'interior': np.array([0.25, 0.5]),
+              'single': np.array([0.5]), 'empty': np.array([])}
+    classes = [U.GaussianUnivariate, U.UniformUnivariate, U.GammaUnivariate, U.BetaUnivariate, U.StudentTUnivariate,
+               U.TruncatedGaussian, U.GaussianKDE, U.LogLaplace, U.Univariate]
+    for cls in classes:
+        for meth in ('cumulative_distribution', 'probability_density', 'percent_point', 'log_probability_density', 'cdf', 'pdf', 'ppf'):
+            for kind, x in inputs.items():
+                m = cls()
+                if not hasattr(m, meth):
+                    continue
+                try:
+                    r = getattr(m, meth)(x.copy())
+                    outcome = f'returned {np.asarray(r).tolist()!r}'
+                except NotFittedError:
+                    outcome = None
+                except Exception as ex:
+                    outcome = f'raised {type(ex).__name__}: {ex}'
+                ctx.case(('unfitted-edge', cls.__name__, meth, kind), None)
+                if outcome is not None:
+                    ctx.obligation(f'oracle:unfitted-edge:{cls.__name__}.{meth}:{kind}', False, 'correspondence', outcome)
+                    ctx.violation(f'unfitted:{cls.__name__}.{meth}:{kind}-input', f'unfitted {cls.__name__}().{meth}({x.tolist()}) {outcome} instead of raising NotFittedError',
+                                  {'class': cls.__name__, 'method': meth, 'input': x.tolist(),
+                                   'repro': (f"import numpy as np\nfrom copulas import univariate as U\nfrom copulas.errors import NotFittedError\n"
+                                             f"try:\n    U.{cls.__name__}().{meth}(np.array({x.tolist()!r}))\n    raise SystemExit(1)\nexcept NotFittedError:\n    pass\n")})
+    ctx.obligation('oracle:unfitted-edge-inputs', True, 'correspondence')
